@@ -2,3 +2,4 @@
 import NautilusVerif.Driver.ShiftD
 import NautilusVerif.Driver.Prior
 import NautilusVerif.Driver.ResampleD
+import NautilusVerif.Driver.UnionD
